@@ -30,14 +30,16 @@ CLAIMED = {
         text="TLC proves Integrity on the model for every edit kind of the adversary alphabet (flip/truncate/extend/insert/"
              "splice of two authentic tokens/re-encode/non-canonical base64/header/footer-segment edits/relabel) under all "
              "256 presentations; each edited-token behaviour is replayed with the edit expanded to all bit positions, "
-             "character substitutions, prefixes and boundary shifts of concrete tokens, through core, generic and prelude "
-             "layers with a counting validator; plus random behaviours with up to 4 successive edits from TLC simulation mode; the "
+             "character substitutions, every truncation length, boundary shifts and compensating changes (double flips, swaps, reversal) of concrete "
+             "tokens, through core, generic and prelude layers with a counting validator; the authentic token is accepted immediately before the first "
+             "altered ones (priming) and rejections are presented twice; plus random behaviours with up to 4 successive edits from TLC simulation mode; the "
              "byte-level lemma B64.tla (canonical base64url <-> bytes bijection) is model-checked in the same run.",
         ref="5 C03", tech="TLA+ adversary model (TLC) + exhaustive-position mutation replay against the library"),
     "C04": dict(
         text="KeyBound/AcceptIff on the model; replay with the second key instantiated by all 256 single-bit neighbours, "
-             "all-zero, all-one and random keys (asymmetric: the neighbouring seed's key pair), all protocols and layers; "
-             "the parser-history model (MC_Parser) adds re-presentation of the same token to one parser object under another key.",
+             "all-zero, all-one and random keys (asymmetric: the neighbouring seed's key pair, every single-bit neighbour of the Ed25519 / P-384 / RSA "
+             "public key bytes, the RSA key inside non-encodings), all protocols and layers, each wrong-key presentation primed by an acceptance under the "
+             "right key and repeated; the parser-history model (MC_Parser) adds re-presentation of the same token to one parser object under another key.",
         ref="5 C04", tech="TLA+ model (TLC) + key-neighbourhood replay + parser call-history replay"),
     "C05": dict(
         text="FooterBound/AcceptIff/FooterSeg over the full footer x expected-footer matrix and the footer-segment edit kinds; "
@@ -55,7 +57,8 @@ CLAIMED = {
         ref="5 C06", tech="TLA+ model (TLC, Clear() term analysis) + assertion-pair matrix replay + absence scan"),
     "C07": dict(
         text="ProtoBound over all 56 ordered protocol pairs, verbatim and relabelled, same key bytes where both protocols accept them; "
-             "replay through all 24 entry points.",
+             "replay through all 24 entry points; re-parse histories (MC_Parser c16r / c16pr) show a parser that has just accepted a token the same "
+             "token under another protocol's header.",
         ref="5 C07", tech="TLA+ model (TLC) over all protocol pairs + relabel replay"),
 }
 
@@ -99,12 +102,15 @@ CLAIMED.update({
              "tokens carrying every absent/null/v1/v2 combination under either key, configuration calls also after parses (one parser object "
              "reconfigured and reused), ExpectIff and parse-purity as invariants; executed "
              "with value pairs differing in type/case/number/nested member or coinciding under a lossy comparison (u64::MAX vs -1, 2^53 vs +1, NFC vs NFD, "
-             "null vs 'null'), keys differing by one character or being JSON-pointer syntax; longer histories (6 configuration calls, 4 parses) drawn by TLC simulation.",
+             "null vs 'null', one JSON text a prefix of the other, wrapper-shaped objects), keys differing by one character, padded, or being JSON-pointer syntax; "
+             "family c15pc runs PasetoParser::check_claim with custom claims; longer histories (6 configuration calls, 4 parses) drawn by TLC simulation.",
         ref="5 C15", tech="TLA+ parser model composed with the token model (TLC) + trace validation of executed parser histories", note=PARSER_NOTE),
     "C16": dict(
         text="MC_Parser: validate_claim / extend_validation_claims / check_claim / set_footer configurations x authentic, tampered, "
              "wrong-key, wrong-footer and non-JSON tokens; ValidatorDiscipline as invariant; the harness validators log (key, value) and "
-             "TLC accepts an observation iff some processing order of the claim map explains outcome, named claim and calls; longer histories "
+             "TLC accepts an observation iff some processing order of the claim map explains outcome, named claim and calls; validators are registered with the "
+             "harness' claim type, with the library's placeholder claims and (generic parser) under exp / nbf themselves; re-parse histories c16r / c16pr (same token again under "
+             "another key, after a footer change, relabelled); longer histories "
              "(6 configuration calls, 4 parses, reconfiguration between parses) drawn by TLC simulation.",
         ref="5 C16", tech="TLA+ parser model with order nondeterminism (TLC) + trace validation of logged validator calls", note=PARSER_NOTE),
     "C11": dict(
@@ -135,7 +141,7 @@ CLAIMED.update({
         text="MC_Shapes enumerates every token shape - header x segment count 0..6 x decoded payload length 0..400 x canonical/non-canonical x "
              "footer segment - and proves on the step-by-step model that all entry points return a format/authentication error; every shape "
              "is replayed against all 24 entry points under catch_unwind, plus prefixes of authentic tokens, random Unicode, 1 MiB inputs and "
-             "Key::<N>::try_from(hex) for every length 0..200.",
+             "footer segments with every byte value first / last and JSON-structural content, and Key::<N>::try_from(hex) for every length 0..200.",
         ref="5 C09", tech="TLA+ shape model (TLC, exhaustive over lengths) + replay of every shape under catch_unwind"),
     "C18": dict(cat="exploration",
         text="spec/Claims.tla states the constructor contract; MC_Claims enumerates all 30 940 keys of length <= 4 over the letters of the "
